@@ -11,14 +11,19 @@ for f in sorted(glob.glob(os.path.join(V, "evidence", "C*.json"))):
                 c.get("evaluations", ""), c.get("traces_validated_against_impl", ""), c.get("distinct_nontrivial", "")))
 out = out.replace("<!--BOUNDS-->", "\n".join(rows))
 out += "## 10. Seeded changes: which check catches which\n\n"
-out += ("Ninety-two changes to the library (two rounds for every property, a third for C03 C04 C07 C09 C10 C14) were written by fresh sub-agents that were given only the text of one property and a scratch\n"
+out += ("One hundred and eight changes to the library (two rounds for every property, a third for C03 C04 C07 C09 C10 C14, a fourth — `-r4mN`, asked for changes that need something specific to manifest — for C06 C08 C11 C12 C13 C16 C17 C20) were written by fresh sub-agents that were given only the text of one property and a scratch\n"
         "worktree (nothing from /verif). Each is kept under `/verif/seeded/<id>/` (patch.diff, demo.py, meta.json) and was confirmed\n"
         "in a scratch worktree: the repository tests give the same result with the change, the demonstration passes without and fails\n"
         "with it. `harness/seeded.py run` applies each change in a scratch worktree (never in /repo) and runs the listed checks with\n"
         "`AY_REPO=<worktree>`. After the `fix:` commits some changes no longer apply / manifest (noted); patches whose context moved were\n"
         "rebased by hand and confirmed again (`rebased` in meta.json, the delivered patch is kept as patch_original.diff). Where a change is\n"
         "not caught by the check of the property it was written for, the check that does catch it is listed. Every change of rounds 2 and 3\n"
-        "that was missed at first led to an extension of a universe, a formula or the harness (sections 5/C01, C04, C06, C08, C10, C11, C14, C15, C17).\n\n")
+        "that was missed at first led to an extension of a universe, a formula or the harness (sections 5/C01, C04, C06, C08, C10, C11, C14, C15, C17).\n"
+        "Round 4: 14 of 16 were caught as delivered; C06-r4m1 (a per-build cache of parsed include files: the same node objects handed out\n"
+        "twice) needed a file that is *named more than once* in one build - the harness wrote one file per document occurrence - and led to the\n"
+        "`*_same` presentations and the universe `C06_DocsRep` (any document at any stage, sequences d, e, d); C06-r4m2 was found by direction A\n"
+        "but crashed the re-judging of failing `key_unsafe` histories (a harness defect: machinery error instead of a verdict; corrected).\n"
+        "The C16 sub-agent also reported two anomalies of the *unchanged* tree in passing: they are F25 (fixed) and F26 (known finding), section 6.\n\n")
 out += "| id | what it breaks / needs | confirmed on HEAD | detected by (quick tier) |\n|---|---|---|---|\n"
 for d in sorted(glob.glob(os.path.join(V, "seeded", "*"))):
     m = json.load(open(os.path.join(d, "meta.json")))
